@@ -974,6 +974,115 @@ impl Space for Lifetimes {
     }
 }
 
+// ---------------------------------------------------------------------------------------
+// The timeout is enforced whatever the child does with its standard input: a child that never
+// reads a standard-input text larger than the pipe buffer blocks the writer thread in the
+// kernel, which the gate scheduler cannot model (a thread blocked in write() never parks).
+// Run for real through the whole interpreter: size of the text x whether the child reads it x
+// whether the child outlives the timeout. Generous margins: the child either exits at once
+// (timeout 20 s) or sleeps 6 s (timeout 300 ms; the run must be over long before it wakes).
+// ---------------------------------------------------------------------------------------
+
+const STDIN_SIZES: &[usize] = &[0, 1000, 65_536, 65_537, 150_000];
+
+struct TimeoutStdin;
+
+impl Space for TimeoutStdin {
+    fn id(&self) -> String {
+        "timeout-x-stdin-size-x-child-reads".into()
+    }
+    fn size(&self) -> u64 {
+        (STDIN_SIZES.len() * 2 * 2) as u64
+    }
+    fn profile(&self) -> Profile {
+        Profile::Fast
+    }
+    fn chunk(&self) -> u64 {
+        1
+    }
+    fn case_timeout_ms(&self) -> u64 {
+        120_000
+    }
+    fn describe(&self, i: u64) -> String {
+        let i = i as usize;
+        let (size, reads, outlives) = (STDIN_SIZES[i / 4], (i / 2) % 2 == 1, i % 2 == 1);
+        format!("stdin_text of {size} bytes, child {} it, child {}", if reads { "reads" } else { "never reads" }, if outlives { "sleeps 6 s under timeout_ms(300)" } else { "exits at once under timeout_ms(20000)" })
+    }
+    fn run(&self, ctx: &mut Ctx, i: u64) -> Outcome {
+        use crate::drive::{self, End, Front, M0, RunOpts, TV};
+        use naijascript::diagnostics::AsStr;
+        let i = i as usize;
+        let (size, reads, outlives) = (STDIN_SIZES[i / 4], (i / 2) % 2 == 1, i % 2 == 1);
+        let child = {
+            let mut p = std::env::current_exe().expect("current exe");
+            p.pop();
+            p.join("vchild").display().to_string()
+        };
+        let marker_dir = crate::util::verif_root().join("target/tmp").join(format!("c16t-{}", std::process::id()));
+        let _ = std::fs::create_dir_all(&marker_dir);
+        for e in std::fs::read_dir(&marker_dir).into_iter().flatten().flatten() {
+            let _ = std::fs::remove_file(e.path());
+        }
+        unsafe { std::env::set_var("VERIF_MARKER", marker_dir.join("m")) };
+        let mut src = format!(
+            "make c get command(\"{child}\")\nc.arg(\"sleepy\")\nc.arg(\"{}\")\nc.arg(\"{}\")\nc.timeout_ms({})\nc.stdout_capture()\n",
+            if outlives { 6000 } else { 0 },
+            u8::from(reads),
+            if outlives { 300 } else { 20_000 }
+        );
+        if size > 0 {
+            // built at run time: 50-byte pieces doubled up to the size
+            src.push_str(&format!("make t get \"{}\"\njasi (t.len() small pass {size}) start t get t add t end\nc.stdin_text(t.slice(0, {size}))\n", "0123456789".repeat(5)));
+        }
+        src.push_str("make r get c.run()\nshout(r.exit_code())\nshout(r.stdout())\n");
+        let caps = naijascript::process::ProcessCaps::defaults();
+        ctx.policy = naijascript::process::HostPolicy { allow_process: true, process: caps };
+        let t0 = std::time::Instant::now();
+        let o = drive::run_pipeline(ctx, &src, M0, RunOpts::default());
+        let wall = t0.elapsed();
+        ctx.policy = naijascript::process::HostPolicy::default();
+        unsafe { std::env::remove_var("VERIF_MARKER") };
+        let bad = |class: &str, detail: serde_json::Value| Outcome::bad("violation", Violation::new(class, self.describe(i as u64), json!({"detail": detail, "wall_ms": wall.as_millis() as u64, "obs": o.show()})));
+        if !matches!(o.front, Front::Accepted) {
+            return bad("script-rejected", json!(null));
+        }
+        // the child's pid from its marker file
+        let pid: Option<i32> = std::fs::read_dir(&marker_dir).into_iter().flatten().flatten().find_map(|e| e.file_name().to_string_lossy().rsplit('.').next().and_then(|p| p.parse().ok()));
+        if outlives {
+            let timeout = naijascript::runtime::RuntimeErrorKind::ProcessTimeout.as_str();
+            if !matches!(&o.end, End::RuntimeError(m) if m == timeout) {
+                return bad("timeout-not-reported", json!(null));
+            }
+            if wall.as_millis() > 4000 {
+                return bad("timeout-enforced-too-late", json!(null));
+            }
+            // ... and the child is not left running
+            if let Some(pid) = pid {
+                let mut alive = true;
+                for _ in 0..40 {
+                    if unsafe { libc::kill(pid, 0) } != 0 {
+                        alive = false;
+                        break;
+                    }
+                    std::thread::sleep(std::time::Duration::from_millis(50));
+                }
+                if alive {
+                    unsafe { libc::kill(pid, libc::SIGKILL) };
+                    return bad("child-left-running-after-timeout", json!({"pid": pid}));
+                }
+            } else {
+                return bad("child-never-started", json!(null));
+            }
+            Outcome::ok("timeout reported, child gone", true)
+        } else {
+            if !matches!(o.end, End::Normal) || o.out != vec![TV::num(0.0), TV::S(b"woke".to_vec())] {
+                return bad("ordinary-run-wrong-result", json!(null));
+            }
+            Outcome::ok("ordinary result", true)
+        }
+    }
+}
+
 pub fn spaces(tier: Tier) -> Vec<Box<dyn Space>> {
-    vec![Box::new(SchedSpace { thorough: tier == Tier::Thorough }), Box::new(Lifetimes)]
+    vec![Box::new(SchedSpace { thorough: tier == Tier::Thorough }), Box::new(Lifetimes), Box::new(TimeoutStdin)]
 }
